@@ -66,6 +66,7 @@ typedef struct { uint32_t seg[MAXSEG]; int nseg, next; uint64_t total, accepted;
 /* segmentation of a stream of `total` bytes whose running total crosses `thr` at a chosen residue */
 static int mix_bigpos;
 #define ALL_LANES 7ull
+#define WRAP32 9ull
 static void plan(job_t *j, rng_t *r, uint64_t thr, int jidx, int block)
 {
         if (thr == 0) {
@@ -90,6 +91,17 @@ static void plan(job_t *j, rng_t *r, uint64_t thr, int jidx, int block)
                 j->next = 0; j->accepted = 0; j->inflight = 0; j->done = 0; j->nseg = 1;
                 uint64_t t = ((1ull << 24) + (uint64_t) jidx * 3 + rng_below(r, 3)) * (uint64_t) block + (jidx % 4 == 0 ? 0 : rng_below(r, (uint32_t) block));
                 j->seg[0] = (uint32_t) t; j->total = t;
+                return;
+        }
+        if (thr == WRAP32) {
+                /* a buffered partial block of p bytes, then one segment whose length plus p reaches 2^31 (job 0) or 2^32 (job 1), then a short tail:
+                 * sums of the two lengths formed in 32 bits or in a signed int show here */
+                j->next = 0; j->accepted = 0; j->inflight = 0; j->done = 0; j->nseg = 3;
+                uint32_t p = 1 + rng_below(r, (uint32_t) block - 1);
+                j->seg[0] = p;
+                j->seg[1] = jidx % 2 == 0 ? 0x80000000u + (uint32_t) block - rng_below(r, p) : 0xffffffffu - rng_below(r, p);
+                j->seg[2] = rng_below(r, 200);
+                j->total = (uint64_t) j->seg[0] + j->seg[1] + j->seg[2];
                 return;
         }
         static const int64_t dthr[] = { 0, -1, 1, -64, 64, -63, 63, 7 };
@@ -146,11 +158,24 @@ static void lane_pairs(const halg_t *a, const hfam_t *f)
         }
         int npairs = L * L, nrand = (int) arg_int("--nrand", 200);
         static const uint32_t mags[] = { 1, 2, 3, 15, 16, 17, 255, 256, 257, 4095, 4096, 4097, 4100, 65535, 65536, 65537, 1u << 20, (1u << 24) + 1 };
-        for (int path = 0; path < 2; path++) for (int t = 0; t < npairs + nrand; t++) {
+        int npat = 12 * 3;      /* lane subsets (halves, parities, quarters, all-but-one) that are huge together, three huge values each */
+        for (int path = 0; path < 2; path++) for (int t = 0; t < npairs + nrand + npat; t++) {
                 int n = path == 0 ? L : L - 1;
                 int bigpos = -1, shortpos = -1;
                 uint32_t len[33]; uint64_t off[33]; int small[33]; uint32_t hv = 0;
-                if (t < npairs) {
+                if (t >= npairs + nrand) {
+                        /* a whole subset of the lanes holds jobs of >= 2^31 bytes (the sign bit of the packed lengths is set in every element of one
+                         * half / parity class / quarter of the vector that the minimum is reduced over), the other lanes distinct short jobs */
+                        int pt = (t - npairs - nrand) / 3, hvk = (t - npairs - nrand) % 3, nh = 0;
+                        for (int i = 0; i < n; i++) {
+                                int huge = pt == 0 ? i < n / 2 : pt == 1 ? i >= n / 2 : pt == 2 ? (i & 1) == 0 : pt == 3 ? (i & 1) : pt < 8 ? i * 4 / n == pt - 4 : pt == 8 ? i != 0 : pt == 9 ? i != n - 1 : pt == 10 ? (i & 2) == 0 : (i & 4) == 0;
+                                if (n < 2) huge = 0;
+                                len[i] = huge ? hugev[(i + hvk * 2) % 6] : (uint32_t) a->block * (uint32_t) (2 + i) + (uint32_t) (i % 5);
+                                small[i] = !huge; nh += huge;
+                        }
+                        if (nh == 0 || nh == n) continue;
+                        bigpos = -2;
+                } else if (t < npairs) {
                         /* one job of >= 2^31 bytes at bigpos, the unique shortest at shortpos, distinct medium ones elsewhere */
                         bigpos = t / L; shortpos = t % L;
                         if (bigpos == shortpos || bigpos >= n || shortpos >= n) continue;
@@ -305,6 +330,7 @@ int hashmb_big(int argc, char **argv)
         const char *ts = arg_str("--thr", "29");
         if (strstr(ts, "mix")) thr[nthr++] = 0;
         if (strstr(ts, "lanes")) thr[nthr++] = ALL_LANES;
+        if (strstr(ts, "wrap")) thr[nthr++] = WRAP32;
         if (strstr(ts, "29")) thr[nthr++] = 1ull << 29;
         if (strstr(ts, "32")) thr[nthr++] = 1ull << 32;
         if (strstr(ts, "33")) thr[nthr++] = (1ull << 32) + (1ull << 29);
@@ -336,6 +362,7 @@ int hashmb_big(int argc, char **argv)
                 for (int ti = 0; ti < nthr && njobs[fi]; ti++) for (int rd = 0; rd < rounds; rd++) {
                         job_t *J = jobs[fi][ti][rd]; int n = njobs[fi];
                         /* all-lanes rounds come in three shapes: lanes+1 jobs (the kernel starts on a submit), lanes-1 jobs and 2 jobs (it starts on a flush) */
+                        if (thr[ti] == WRAP32) n = 2;
                         if (thr[ti] == ALL_LANES) { int shape = (rd + (int) (g_seed % 3) + fi) % 3; if (shape == 1 && f->lanes > 2) n = f->lanes - 1; else if (shape == 2) n = 2; if (n > njobs[fi]) n = njobs[fi]; }
                         snprintf(rb, sizeof rb, "{\"engine\":\"hashmb\",\"mode\":\"big\",\"alg\":\"%s\",\"fam\":\"%s\",\"thr\":%llu,\"round\":%d,\"seed\":%llu}", a->name, f->name, (unsigned long long) thr[ti], rd, (unsigned long long) g_seed);
                         snprintf(cur_replay, sizeof cur_replay, "%s", rb);
@@ -388,7 +415,7 @@ int hashmb_big(int argc, char **argv)
                                                         if (j->want < 0 || memcmp(got, wants[j->want].digest, (size_t) a->dbytes)) {
                                                                 char g[129], e[129]; hex(g, got, (size_t) a->dbytes); hex(e, wants[j->want].digest, (size_t) a->dbytes);
                                                                 char segs[300]; size_t so = 0; for (int q = 0; q < j->nseg && so + 12 < sizeof segs; q++) so += (size_t) snprintf(segs + so, sizeof segs - so, "%u,", j->seg[q]);
-                                                                snprintf(key, sizeof key, "big-digest %s %s thr=%s", a->name, f->name, thr[ti] == 0 ? "mixed-sizes" : thr[ti] == ALL_LANES ? "all-lanes-2^24-blocks" : thr[ti] == (1ull << 29) ? "2^29" : thr[ti] == (1ull << 32) ? "2^32" : "2^32+2^29");
+                                                                snprintf(key, sizeof key, "big-digest %s %s thr=%s", a->name, f->name, thr[ti] == 0 ? "mixed-sizes" : thr[ti] == ALL_LANES ? "all-lanes-2^24-blocks" : thr[ti] == WRAP32 ? "partial+segment-reaches-2^31/2^32" : thr[ti] == (1ull << 29) ? "2^29" : thr[ti] == (1ull << 32) ? "2^32" : "2^32+2^29");
                                                                 out_viol(g_prop, key, rb, "total %llu bytes, segments %s digest %s expected %s", (unsigned long long) j->total, segs, g, e);
                                                         }
                                                         { static int ns; if (ns < 44) { ns++; char g[129]; hex(g, got, (size_t) a->dbytes);
@@ -399,7 +426,7 @@ int hashmb_big(int argc, char **argv)
                                                                      j->want >= 0 && !memcmp(got, wants[j->want].digest, (size_t) a->dbytes) ? "equal to OpenSSL" : "DIFFERS");
                                                           clog_on = 0; } }
                                                         out_count("big_jobs_completed", 1);
-                                                        char cn[64]; snprintf(cn, sizeof cn, "big_jobs_%s", thr[ti] == 0 ? "mixed-sizes" : thr[ti] == ALL_LANES ? "all-lanes-2^24-blocks" : thr[ti] == (1ull << 29) ? "2^29" : thr[ti] == (1ull << 32) ? "2^32" : "2^32+2^29"); out_count(cn, 1);
+                                                        char cn[64]; snprintf(cn, sizeof cn, "big_jobs_%s", thr[ti] == 0 ? "mixed-sizes" : thr[ti] == ALL_LANES ? "all-lanes-2^24-blocks" : thr[ti] == WRAP32 ? "partial+segment-reaches-2^31/2^32" : thr[ti] == (1ull << 29) ? "2^29" : thr[ti] == (1ull << 32) ? "2^32" : "2^32+2^29"); out_count(cn, 1);
                                                 }
                                                 ret = NULL;
                                         }
